@@ -175,6 +175,16 @@ func c03Observe(ctx *core.Ctx, consumer, reach string, tv truthVal) (truthy bool
 	case "item":
 		x = "it"
 		data["xs"] = []any{tv.V}
+	case "ptrfield":
+		// the value is a nil *struct FIELD of struct root data
+		x = "x"
+		ctx.Eval(1)
+		tpl := c03TruthTpl(consumer, x)
+		out, err = renderString(tpl, c03RootPtr{})
+		if err != nil {
+			return false, err, out
+		}
+		return c03Judge(consumer, out)
 	}
 	tpl := c03TruthTpl(consumer, x)
 	if reach == "item" {
@@ -185,6 +195,15 @@ func c03Observe(ctx *core.Ctx, consumer, reach string, tv truthVal) (truthy bool
 	if err != nil {
 		return false, err, out
 	}
+	return c03Judge(consumer, out)
+}
+
+type c03RootPtr struct {
+	X  *vStruct `json:"x"`
+	F0 bool     `json:"f0"`
+}
+
+func c03Judge(consumer, out string) (truthy bool, err error, o string) {
 	m := htmlcmp.ByID(htmlcmp.Parse(out), "m")
 	switch consumer {
 	case "vif", "velseif":
@@ -306,6 +325,9 @@ func init() {
 		Decode:      core.DecodeAs[c03Case](),
 		Enumerate: func(tier string, emit func(core.Case)) {
 			for _, tv := range truthValues {
+				if tv.Name == "nil_ptr" {
+					emit(&c03Case{Part: "truth", Val: tv.Name, Reach: "ptrfield"})
+				}
 				for _, r := range []string{"var", "nested", "item"} {
 					if r == "item" && tv.Name == "missing" {
 						continue
